@@ -346,6 +346,10 @@ def run(ctx):
     ctx.rule("R08.6", "shared source listeners: one bus/broker/webhook registration per subscribed type - made when the first subscriber arrives, "
              "released (handle called) when the last one leaves, so re-subscription never doubles the deliveries", floor=24)
     listener_table(ctx, program, "R08.6")
+    ctx.rule("R08.11", "an event is delivered with exactly its data as keyword arguments and event.fire() carries exactly the given parameters, whatever the keys are "
+             "called: the functions the data passes through (event.fire, both subsystems' run wrappers, the interpreter's call) take their own parameters positional-only", floor=3)
+    from .c03 import kwargs_namespace_rule
+    kwargs_namespace_rule(ctx, program, "R08.11", only=("function.py::Function.event_fire", "trigger.py::TrigInfo.call_action.do_func_call", "eval.py::AstEval.call_func"))
     ctx.rule("R08.8", "the variables a filter expression sees are those of the current message only: a key carried by an earlier message and absent from this one is "
              "not visible (both subsystems' evaluation helpers)", floor=2)
     filter_scope_rule(ctx, program, "R08.8")
